@@ -769,6 +769,35 @@ static void run_cmp(int maxlen, const std::string &job)
             }
         }
     }
+    // operands that share storage: a string against a prefix of its own buffer (a_str_cmpn / a_str_cmp_ / a_str_cmps with the string's
+    // own pointer, a shallow copy whose length was changed): the blocks start at the same address and differ only in length
+    for (size_t i = 0; i < all.size(); ++i)
+    {
+        const std::string &t = all[i];
+        if (t.empty()) { continue; }
+        std::vector<char> ab(t.begin(), t.end());
+        ab.push_back(0);
+        a_str A = A_STR_INIT;
+        A.ptr_ = ab.data(); A.num_ = t.size(); A.mem_ = ab.size();
+        for (size_t k = 0; k <= t.size(); ++k)
+        {
+            int want = ref_cmp(t, t.substr(0, k));
+            a_str B = A;
+            B.num_ = k;
+            ++evals;
+            std::string what;
+            if (sgn(a_str_cmpn(&A, A.ptr_, k)) != want) { what = "a_str_cmpn"; }
+            else if (sgn(a_str_cmp_(A.ptr_, A.num_, A.ptr_, k)) != want || sgn(a_str_cmp_(A.ptr_, k, A.ptr_, A.num_)) != -want) { what = "a_str_cmp_"; }
+            else if (sgn(a_str_cmp(&A, &B)) != want || sgn(a_str_cmp(&B, &A)) != -want) { what = "a_str_cmp"; }
+            else if (k == strlen(ab.data()) && sgn(a_str_cmps(&A, A.ptr_)) != want) { what = "a_str_cmps"; }
+            if (!what.empty())
+            {
+                vx::viol("str|cmp|" + what + "|shared-storage", what + " of \"" + Harness::show(t) + "\" against the first " + std::to_string(k) + " byte(s) of its own buffer does not order like bytewise comparison with length as tie-break (expected sign " + std::to_string(want) + ")",
+                         "{\"job\":" + vx::jstr(job) + ",\"input\":[" + vx::jstr(Harness::show(t)) + "," + std::to_string(k) + "]}");
+                break;
+            }
+        }
+    }
     vx::stat("states", 1);
     vx::stat("transitions", evals);
     vx::stat("cmp_pairs", evals);
